@@ -243,6 +243,14 @@ def run(chk: Check, model):
     rule_enqueue_trigger(chk, view, "C05.trigger")
     rule_queue_discipline(chk, view, "C05.queues")
     rule_reset_complete(chk, view, "C05.reset")
+    # a reset that refuses (not warmed up, unsupported setting) refuses before it changes anything: the nodes of a graph are reset one after the
+    # other and must agree on the episode counter afterwards, also when one of them raised
+    fq_rs = view.fi("node._reset").qualname
+    rz_ = [e for e in view.results["node._reset"].events if e.kind in ("raise", "assert") and e.func == fq_rs]
+    st_ = [e for e in view.results["node._reset"].events if e.kind == "store_attr" and e.recv == S("self") and e.func == fq_rs]
+    late = [e for e in rz_ if st_ and e.idx > min(x.idx for x in st_)]
+    chk.add("C05.reset", "a refused reset changes nothing", bool(rz_) and bool(st_) and not late, f"node._reset can still refuse (line {late[0].lineno if late else '?'}) after it has already assigned "
+            f"{[x.name for x in st_ if late and x.idx < late[0].idx][:3]}: the refusing node is left half reset (e.g. with its episode counter ahead of the others)", chk.loc(view.fi("node._reset"), late[0].node if late else None))
     # the episode clock: between reset and start every reader of the clock (now / throttle, also from connection threads) waits for the
     # start time of *this* episode: reset installs a pending future, _set_ts_start resolves it before replacing it by the value
     # (the resolving function: _set_ts_start, or _start itself when the helper is written out there)
